@@ -41,7 +41,8 @@ Lemma snap_pos_units u0 u1 tol : u0 <= u1 -> 0 <= tol ->
     k <= u0 + tol /\ u0 - k < 1 /\
     u1 - tol <= k + n /\
     k + n - u1 <= 1 + tol /\
-    (u0 < u1 -> k + n - u1 < 1 + tol).
+    (u0 < u1 -> k + n - u1 < 1 + tol) /\
+    (1 <= u1 - u0 -> tol < 1 -> k + n - u1 < 1).
 Proof.
   intros Hu Ht.
   destruct (floor_maybe_int u0 tol Ht) as (k & Ek & K1 & K2 & K3).
@@ -54,7 +55,8 @@ Proof.
     repeat split; try lra.
   - assert (L' : c - k <= 1).
     { rewrite Zle_Qle, inject_Z_sub, <- Ek, <- Ec in L. exact L. }
-    rewrite inj1. repeat split; try lra; intros S; destruct K3; lra.
+    rewrite inj1. split; [lra|]. split; [lra|]. split; [lra|]. split; [lra|]. split; [lra|].
+    split; [intros S; destruct K3; lra | intros S1 S2; lra].
 Qed.
 
 (** _snap_edge_pos *)
@@ -66,7 +68,8 @@ Lemma snap_edge_pos_spec x0 x1 rs tol : 0 < rs -> x0 <= x1 -> 0 <= tol ->
     tx <= x0 + tol * rs /\ x0 - tx < rs /\
     x1 - tol * rs <= tx + inject_Z nx * rs /\
     tx + inject_Z nx * rs - x1 <= (1 + tol) * rs /\
-    (x0 < x1 -> tx + inject_Z nx * rs - x1 < (1 + tol) * rs).
+    (x0 < x1 -> tx + inject_Z nx * rs - x1 < (1 + tol) * rs) /\
+    (rs <= x1 - x0 -> tol < 1 -> tx + inject_Z nx * rs - x1 < rs).
 Proof.
   intros Hr Hx Ht. unfold snap_edge_pos.
   assert (E1 : Qltb 0 rs = true) by (apply Qltb_true; exact Hr). rewrite E1.
@@ -75,7 +78,7 @@ Proof.
   assert (U1 : x1 == (x1 / rs) * rs) by (field; lra).
   assert (Hu : x0 / rs <= x1 / rs).
   { apply Qle_shift_div_l; [exact Hr|]. rewrite <- U0. exact Hx. }
-  destruct (snap_pos_units (x0 / rs) (x1 / rs) tol Hu Ht) as (k & n & Ek & En & N1 & K1 & K2 & C1 & X1 & X2).
+  destruct (snap_pos_units (x0 / rs) (x1 / rs) tol Hu Ht) as (k & n & Ek & En & N1 & K1 & K2 & C1 & X1 & X2 & X3).
   eexists. eexists. exists (Qfloor (maybe_int (x0 / rs) tol)).
   split; [reflexivity|].
   split; [apply Z.le_max_l|].
@@ -86,12 +89,18 @@ Proof.
   assert (P2 : 0 < (1 - (u0 - k)) * rs) by (apply Qmult_lt_0_compat; lra).
   assert (P3 : 0 <= (k + n - (u1 - tol)) * rs) by (apply Qmult_le_0_compat; lra).
   assert (P4 : 0 <= (1 + tol - (k + n - u1)) * rs) by (apply Qmult_le_0_compat; lra).
-  repeat split; try lra.
-  intros S.
-  assert (Su : u0 < u1).
-  { apply Qlt_shift_div_l; [exact Hr|]. fold u0. rewrite <- U0. exact S. }
-  assert (P5 : 0 < (1 + tol - (k + n - u1)) * rs) by (apply Qmult_lt_0_compat; [specialize (X2 Su)|]; lra).
-  lra.
+  split; [lra|]. split; [lra|]. split; [lra|]. split; [lra|]. split.
+  - intros S.
+    assert (Su : u0 < u1).
+    { apply Qlt_shift_div_l; [exact Hr|]. fold u0. rewrite <- U0. exact S. }
+    assert (P5 : 0 < (1 + tol - (k + n - u1)) * rs) by (apply Qmult_lt_0_compat; [specialize (X2 Su)|]; lra).
+    lra.
+  - intros S T.
+    assert (Su : 1 <= u1 - u0).
+    { apply Qnot_lt_le. intros C.
+      assert (P : 0 < (1 - (u1 - u0)) * rs) by (apply Qmult_lt_0_compat; lra). lra. }
+    assert (P6 : 0 < (1 - (k + n - u1)) * rs) by (apply Qmult_lt_0_compat; [specialize (X3 Su T)|]; lra).
+    lra.
 Qed.
 
 Lemma snap_edge_pos_err_res x0 x1 rs tol : rs <= 0 -> snap_edge_pos x0 x1 rs tol = Err (EAssert 173).
@@ -109,7 +118,8 @@ Lemma snap_edge_pos_res x0 x1 rs tol : 0 < rs -> x0 <= x1 -> 0 <= tol ->
     tx <= x0 + tol * rs /\ x0 - tx < rs /\
     x1 - tol * rs <= tx + inject_Z nx * rs /\
     tx + inject_Z nx * rs - x1 <= (1 + tol) * rs /\
-    (x0 < x1 -> tx + inject_Z nx * rs - x1 < (1 + tol) * rs).
+    (x0 < x1 -> tx + inject_Z nx * rs - x1 < (1 + tol) * rs) /\
+    (rs <= x1 - x0 -> tol < 1 -> tx + inject_Z nx * rs - x1 < rs).
 Proof.
   intros Hr Hx Ht. unfold snap_edge.
   assert (E2 : Qle_bool x0 x1 = true) by (apply Qle_bool_iff; exact Hx). rewrite E2.
@@ -127,18 +137,21 @@ Lemma snap_edge_neg_res x0 x1 rs tol : rs < 0 -> x0 <= x1 -> 0 <= tol ->
     tx + inject_Z nx * rs <= x0 + tol * (- rs) /\ x0 - (tx + inject_Z nx * rs) < - rs /\
     x1 - tol * (- rs) <= tx /\
     tx - x1 <= (1 + tol) * (- rs) /\
-    (x0 < x1 -> tx - x1 < (1 + tol) * (- rs)).
+    (x0 < x1 -> tx - x1 < (1 + tol) * (- rs)) /\
+    (- rs <= x1 - x0 -> tol < 1 -> tx - x1 < - rs).
 Proof.
   intros Hr Hx Ht. unfold snap_edge.
   assert (E2 : Qle_bool x0 x1 = true) by (apply Qle_bool_iff; exact Hx). rewrite E2.
   assert (E1 : Qltb 0 rs = false) by (apply Qltb_false; lra). rewrite E1. simpl.
   assert (Hr' : 0 < - rs) by lra.
-  destruct (snap_edge_pos_spec x0 x1 (- rs) tol Hr' Hx Ht) as (tx & nx & k & -> & N1 & A & L1 & L2 & C1 & X1 & X2).
+  destruct (snap_edge_pos_spec x0 x1 (- rs) tol Hr' Hx Ht) as (tx & nx & k & -> & N1 & A & L1 & L2 & C1 & X1 & X2 & X3).
   simpl. exists (tx + inject_Z nx * - rs), nx, (k + nx)%Z.
   split; [reflexivity|]. split; [exact N1|].
   split.
   { rewrite A, inject_Z_plus. ring. }
-  repeat split; try lra; intros S; specialize (X2 S); lra.
+  split; [lra|]. split; [lra|]. split; [lra|]. split; [lra|]. split.
+  - intros S; specialize (X2 S); lra.
+  - intros S T; specialize (X3 S T); lra.
 Qed.
 
 Lemma snap_edge_err_order x0 x1 rs tol : x1 < x0 -> snap_edge x0 x1 rs tol = Err (EAssert 182).
@@ -173,16 +186,19 @@ Lemma snap_grid_some_pos x0 x1 rs o tol : 0 < rs -> x0 <= x1 -> off_ok o -> 0 <=
     tx <= x0 + tol * rs /\ x0 - tx < rs /\
     x1 - tol * rs <= tx + inject_Z nx * rs /\
     tx + inject_Z nx * rs - x1 <= (1 + tol) * rs /\
-    (x0 < x1 -> tx + inject_Z nx * rs - x1 < (1 + tol) * rs).
+    (x0 < x1 -> tx + inject_Z nx * rs - x1 < (1 + tol) * rs) /\
+    (rs <= x1 - x0 -> tol < 1 -> tx + inject_Z nx * rs - x1 < rs).
 Proof.
   intros Hr Hx Ho Ht. unfold snap_grid. rewrite (off_ok_bool o Ho).
   assert (Ea : Qabs rs == rs) by (apply Qabs_pos; lra).
   assert (Hx' : x0 - o * Qabs rs <= x1 - o * Qabs rs) by lra.
-  destruct (snap_edge_pos_res _ _ rs tol Hr Hx' Ht) as (tx & nx & k & -> & N1 & A & L1 & L2 & C1 & X1 & X2).
+  destruct (snap_edge_pos_res _ _ rs tol Hr Hx' Ht) as (tx & nx & k & -> & N1 & A & L1 & L2 & C1 & X1 & X2 & X3).
   simpl. exists (tx + o * Qabs rs), nx, k. split; [reflexivity|]. split; [exact N1|].
   rewrite Ea in *. split.
   { rewrite A. ring. }
-  repeat split; try lra; intros S; assert (S' : x0 - o * rs < x1 - o * rs) by lra; specialize (X2 S'); lra.
+  split; [lra|]. split; [lra|]. split; [lra|]. split; [lra|]. split.
+  - intros S; assert (S' : x0 - o * rs < x1 - o * rs) by lra; specialize (X2 S'); lra.
+  - intros S T; assert (S' : rs <= x1 - o * rs - (x0 - o * rs)) by lra; specialize (X3 S' T); lra.
 Qed.
 
 (** snap_grid, snapping to pixel fraction [o], negative resolution *)
@@ -194,16 +210,19 @@ Lemma snap_grid_some_neg x0 x1 rs o tol : rs < 0 -> x0 <= x1 -> off_ok o -> 0 <=
     tx + inject_Z nx * rs <= x0 + tol * (- rs) /\ x0 - (tx + inject_Z nx * rs) < - rs /\
     x1 - tol * (- rs) <= tx /\
     tx - x1 <= (1 + tol) * (- rs) /\
-    (x0 < x1 -> tx - x1 < (1 + tol) * (- rs)).
+    (x0 < x1 -> tx - x1 < (1 + tol) * (- rs)) /\
+    (- rs <= x1 - x0 -> tol < 1 -> tx - x1 < - rs).
 Proof.
   intros Hr Hx Ho Ht. unfold snap_grid. rewrite (off_ok_bool o Ho).
   assert (Ea : Qabs rs == - rs) by (apply Qabs_neg; lra).
   assert (Hx' : x0 - o * Qabs rs <= x1 - o * Qabs rs) by lra.
-  destruct (snap_edge_neg_res _ _ rs tol Hr Hx' Ht) as (tx & nx & k & -> & N1 & A & L1 & L2 & C1 & X1 & X2).
+  destruct (snap_edge_neg_res _ _ rs tol Hr Hx' Ht) as (tx & nx & k & -> & N1 & A & L1 & L2 & C1 & X1 & X2 & X3).
   simpl. exists (tx + o * Qabs rs), nx, k. split; [reflexivity|]. split; [exact N1|].
   rewrite Ea in *. split.
   { rewrite A. ring. }
-  repeat split; try lra; intros S; assert (S' : x0 - o * - rs < x1 - o * - rs) by lra; specialize (X2 S'); lra.
+  split; [lra|]. split; [lra|]. split; [lra|]. split; [lra|]. split.
+  - intros S; assert (S' : x0 - o * - rs < x1 - o * - rs) by lra; specialize (X2 S'); lra.
+  - intros S T; assert (S' : - rs <= x1 - o * - rs - (x0 - o * - rs)) by lra; specialize (X3 S' T); lra.
 Qed.
 
 (** snap_grid without snapping ([off_pix = None]) *)
